@@ -10,6 +10,11 @@ CLAIMED = {
    note="Trusted: Coq kernel + VM; no axioms. The theorem is about the hand-written model Model/Csv.v; its agreement with csv.go is established only on the cases each run executes (all table shapes up to 3 rows x 2 cells, all short hostile strings in each field position, random tables to 6x6). fmt.Fprint/Fprintln write semantics and bytes.Buffer are not modelled beyond 'one call = one Write'.",
    technique="Coq proof by induction (parse . render round trip over a fold_left state machine) + differential correspondence check (vm_compute)",
    ref="6 (C05)"),
+ "C15": dict(
+   text="Machine-checked proof (Coq 8.16.1, closed under the global context): for EVERY list of Write calls whose results are all checked and EVERY scripted destination writer (fault at any call, persistent or on a single call, with or without a partial write) RenderTo returns an error whenever a call it made failed, the accepted bytes are a prefix of the fault-free output, and no error implies the complete output (Model/Writer.v, by induction over the write list; instantiated for any chunking of the HTML output and for the CSV model's write list). The tie to the code is fault enumeration: every renderer through every entry point is run against a recording writer and then against a scripted writer failing at EVERY write index in four modes; Coq judges each observed (error, accepted bytes) pair against the property and against the model's prediction from the observed write list.",
+   note="Trusted: Coq kernel + VM; no axioms. Modelled, not verified: that each renderer is a straight sequence of Write calls which stops at the first error it checks (text/template's Execute included) - validated by the per-run enumeration on the tables run (8 fixed shapes covering every write site + random tables, 15 targets). Writers that return n < len(p) with a nil error violate io.Writer and are out of scope.",
+   technique="Coq proof by induction over write lists for all fault scripts + exhaustive fault enumeration (every write index x 4 modes) against the real renderers, judged by vm_compute",
+   ref="6 (C15)"),
 }
 
 def main():
